@@ -25,6 +25,19 @@ CHECKS = {
     ),
 }
 
+CHECKS["C15"] = dict(
+    engine="sbvm",
+    technique="SMT (z3) over a symbolic execution of the handlers' dispatch and patterns.* bytecode; event class "
+              "per session, paths/patterns/regexes/flags symbolic over pools; oracle = pathlib/re evaluated directly",
+    level=("model_checking",
+           "Every combination of event class, source/destination path, up to two include and two exclude patterns "
+           "(or regexes) from the pools, case_sensitive and ignore_directories is decided by the solver against an "
+           "independent reference evaluator; the rule is a Boolean function over finite pools, so bounded-exhaustive "
+           "solver checking is the right level.", "DESIGN.md section 9, C15"),
+    note="Trusted: VM opcode semantics (counterexamples and witnesses replayed natively), z3 (+cvc5 in thorough), "
+         "pathlib.PurePath.match / re.match as the definition of 'matches'. Outside the pools nothing is claimed.",
+)
+
 NOT_YET = "check not built yet (work in progress; see DESIGN.md section 11 for the order)"
 NA = {}
 
